@@ -133,6 +133,9 @@ func (g *Gen) inputRaw(n *Node) IVal {
 		case KBool:
 			return boolV(false)
 		case KTime:
+			if r.P(40) {
+				return timeV(time.Time{}.In(time.FixedZone("X", 3600*(1+r.Intn(3)))))
+			}
 			return timeV(time.Time{})
 		}
 	}
@@ -419,6 +422,10 @@ func (g *Gen) destRaw(n *Node, t reflect.Type, populated bool) reflect.Value {
 			if r.P(6) {
 				// instants outside the range int64 nanoseconds since 1970 can express
 				tv = time.Date(Pick(r, []int{2, 1600, 1677, 2262, 2300, 9999}), 6, 1, 12, 0, 0, 0, time.UTC)
+			}
+			if f := r.Fork(0x7a0e); f.P(8) {
+				// the zero instant in another zone: not the zero value of time.Time, a value like any other
+				tv = time.Time{}.In(time.FixedZone("X", 3600*(1+f.Intn(3))))
 			}
 			v.Set(reflect.ValueOf(tv))
 		}
